@@ -14,5 +14,11 @@ claim("C03", "embedded-SQL extraction + tx typestate + SSA dominance on the memo
 claim("C04", "embedded-SQL guard extraction + SSA guard-edge dominance (memory fencing, lookup accept points, API classification)",
       "Settle statements carry lease_id=<presented>, state='leased', lease_until>now or are keyed by ids fed only from a lease lookup whose state/expiry tests dominate every accept point; memory settle mutations are behind index hit, id match, state and not-expired edges; no mutation before an error return; conflicts map to 409/FailedPrecondition; idempotency cache written only after Store success. Not decided: histories, cache TTL timing, concurrency.",
       STD_NOTE)
-for i in range(5, 21):
+claim("C05", "SSA dominance (sweep before select, throttle clock), embedded-SQL conjunct/order extraction, AST clock-source def-use, loop-iteration obligations in the dispatcher",
+      "The expired-lease release dominates candidate selection in all three backends and the SQLite throttle clock advances only on a granted sweep; candidate selection has no conjunct beyond state/next_run_at/route/target, the documented order and a LIMIT; nack stores now+delay (clamped), expiry/requeue store now; sweep constant <= 10ms; the dispatcher settles or requeues every dequeued lease. Not decided: the count min(batch, ready), timing bounds, crash/restart, starvation under concurrency.",
+      STD_NOTE)
+claim("C06", "interval-domain path-condition extraction of the success/retry predicates; path enumeration of the decision function; kind-consistent reachability of Store calls",
+      "The success and retry predicates' accept sets over (error kind, status code) equal the documented classes exactly; every path of the classification maps to the documented action, outcome and dead reason with attempt <= retry.max as the bound and records the attempt; each action kind reaches only its Store method with its delay/reason; compile-time retry guards dominate the stores. Not decided: numeric backoff window, the retry.max+1 send count over target behaviours.",
+      STD_NOTE)
+for i in range(7, 21):
     PENDING["C%02d" % i] = "rule set not implemented yet in this round (see DESIGN.md §3 for the planned rules)"
